@@ -160,7 +160,16 @@ Definition charge (s0 s : st) (a : addr) (fee : Z) : st * bool :=
   else (with_tx s (fupd (bal s) a (bal s a - fee)) (pool s) (active s) (pend s) (rew s) (rpend s)
                 (donated s) (und s) (rwd s) (taken s), true).
 
-Definition step (astr : addr -> bytes) (s : st) (o : op) : st * bool :=
+(* txDeliverer (since /repo d276709) calls the kind's Validate before the handler, as CheckTx does.
+   With correctly signed OLT transactions paying the minimum fee price (what this model is about),
+   the static checks of the five kinds reduce to:
+     addNetworkDelegation / undelegate : address validity only (no amount check in Validate)
+     delegWithdrawRewards / reinvest   : currency name = OLT, address validity
+     sendPool                          : Amount.IsValid (amount >= 0), currency OLT, pool exists *)
+Definition validate (o : op) : bool :=
+  match o with Donate _ amt _ => 0 <=? amt | _ => true end.
+
+Definition handle (astr : addr -> bytes) (s : st) (o : op) : st * bool :=
   match o with
   | Begin accr =>
       let h := (height s + 1)%N in
@@ -182,22 +191,26 @@ Definition step (astr : addr -> bytes) (s : st) (o : op) : st * bool :=
                        (<[a := aget (active s) a + amt]> (active s)) (pend s) (rew s) (rpend s)
                        (donated s) (und s) (rwd s) (taken s)) a fee
   | Undelegate a amt fee =>
-      (* Coin.Minus fails only when the RESULT is negative: no sign check on amt *)
+      (* runUndelegate: Amount.IsValid && currency OLT (/repo 1d1d85c — before it a negative amount
+         raised active and pool and was debited at maturity: former finding
+         C12.negative_undelegate), then Coin.Minus on the active amount, pending +=, pool -= *)
       let remain := aget (active s) a - amt in
       let mh := (height s + matk s)%N in
-      if (remain <? 0) || (pool s - amt <? 0) then (s, false)
+      if (amt <? 0) || (remain <? 0) || (pool s - amt <? 0) then (s, false)
       else charge s (with_tx s (bal s) (pool s - amt) (<[a := remain]> (active s))
                        (<[(mh, a) := pget (pend s) mh a + amt]> (pend s)) (rew s) (rpend s)
                        (donated s) (fupd2 (und s) mh a (und s mh a + amt)) (rwd s) (taken s)) a fee
   | WithdrawRw a amt fee =>
+      (* runDeleWithdraw: Amount.IsValid (1d1d85c; former finding C12.negative_reward_withdrawal) *)
       let mh := (height s + matk s)%N in
-      if rew s a - amt <? 0 then (s, false)
+      if (amt <? 0) || (rew s a - amt <? 0) then (s, false)
       else charge s (with_tx s (bal s) (pool s) (active s) (pend s) (fupd (rew s) a (rew s a - amt))
                        (<[(mh, a) := pget (rpend s) mh a + amt]> (rpend s))
                        (donated s) (und s) (fupd2 (rwd s) mh a (rwd s mh a + amt))
                        (fupd (taken s) a (taken s a + amt))) a fee
   | Reinvest a amt fee =>
-      if rew s a - amt <? 0 then (s, false)
+      (* runReinvest: Amount.IsValid && currency OLT (1d1d85c; former finding C12.negative_reinvest) *)
+      if (amt <? 0) || (rew s a - amt <? 0) then (s, false)
       else charge s (with_tx s (bal s) (pool s + amt) (<[a := aget (active s) a + amt]> (active s))
                        (pend s) (fupd (rew s) a (rew s a - amt)) (rpend s)
                        (donated s) (und s) (rwd s) (fupd (taken s) a (taken s a + amt))) a fee
@@ -209,6 +222,9 @@ Definition step (astr : addr -> bytes) (s : st) (o : op) : st * bool :=
       else charge s (with_tx s (fupd (bal s) a (bal s a - amt)) (pool s + amt) (active s) (pend s)
                        (rew s) (rpend s) (donated s + amt) (und s) (rwd s) (taken s)) a fee
   end.
+
+Definition step (astr : addr -> bytes) (s : st) (o : op) : st * bool :=
+  if validate o then handle astr s o else (s, false).
 
 Definition run (astr : addr -> bytes) (s : st) (ops : list op) : st :=
   fold_left (fun s o => (step astr s o).1) ops s.
@@ -228,16 +244,15 @@ Definition trig_collision (astr : addr -> bytes) (s0 : st) (ops : list op) : boo
 Definition neg_donation (o : op) : bool :=
   match o with Donate _ amt _ => amt <? 0 | _ => false end.
 Definition trig_neg_donation (ops : list op) : bool := existsb neg_donation ops.
-(* C12.negative_undelegate: NETWORK_UNDELEGATE with a negative amount (neither Validate nor the
-   handler checks the sign: Coin.Minus only fails when the RESULT is negative) *)
+(* former trigger C12.negative_undelegate: NETWORK_UNDELEGATE with a negative amount (rejected since 1d1d85c) *)
 Definition neg_undelegate (o : op) : bool :=
   match o with Undelegate _ amt _ => amt <? 0 | _ => false end.
 Definition trig_neg_undelegate (ops : list op) : bool := existsb neg_undelegate ops.
-(* C12.negative_reward_withdrawal: REWARDS_WITHDRAW_NETWORK_DELEGATE with a negative amount *)
+(* former trigger C12.negative_reward_withdrawal (rejected since 1d1d85c) *)
 Definition neg_withdraw (o : op) : bool :=
   match o with WithdrawRw _ amt _ => amt <? 0 | _ => false end.
 Definition trig_neg_withdraw (ops : list op) : bool := existsb neg_withdraw ops.
-(* C12.negative_reinvest: REWARDS_REINVEST_NETWORK_DELEGATE with a negative amount *)
+(* former trigger C12.negative_reinvest (rejected since 1d1d85c) *)
 Definition neg_reinvest (o : op) : bool :=
   match o with Reinvest _ amt _ => amt <? 0 | _ => false end.
 Definition trig_neg_reinvest (ops : list op) : bool := existsb neg_reinvest ops.
